@@ -24,7 +24,9 @@
 (* transaction's hash).  payer = [kind |-> "set", i] (the account of set i)*)
 (* | [kind |-> "key", i] (single-key account of key i) | [kind |-> "none"] *)
 (*                                                                         *)
-(* Named deviations (TRUE = the code as it is):                            *)
+(* Named deviations (TRUE = the code as it was FOUND; both were repaired in *)
+(* the repository by fix commits 900ecb87 and 7a71c155, so the checks run  *)
+(* with both switches FALSE; *_asfound.cfg keep the as-found model):       *)
 (*   MaskByPosition    VerifyMultiSignature marks used keys by position    *)
 (*   RawScriptFallback GetSignatureAddresses hashes the raw script instead *)
 (*                     of deriving the address from the parsed keys        *)
